@@ -1,5 +1,6 @@
 import re
 import os.path
+from copy import deepcopy
 
 from .akn import Parser as BaseParser, FAILURE, ParseError, format_error, TreeNode
 import bluebell.types as types
@@ -176,6 +177,9 @@ class AkomaNtosoParser:
         """
         if isinstance(xml, (str, bytes)):
             xml = etree.fromstring(xml)
+        else:
+            # libxslt applies xsl:strip-space to the tree it is given, in place; don't modify the caller's tree
+            xml = deepcopy(xml)
 
         # load xslt
         fname = os.path.join(os.path.dirname(__file__), 'akn_text.xsl')
